@@ -199,6 +199,8 @@ pub struct Engine {
     pub path: Vec<(u32, bool)>,
     pub pathmap: HashMap<u32, bool>,
     pub max_decisions: usize,
+    /// decide() calls on this path, reused outcomes included (guards against cycles that only reuse)
+    pub calls: usize,
     /// abs/min/max/signum build Ite terms instead of forking
     pub ite_mode: bool,
     /// SymI: obligations "intermediate stays within the machine range" (cond ids that must hold)
@@ -238,6 +240,7 @@ impl Default for Engine {
             path: vec![],
             pathmap: HashMap::new(),
             max_decisions: 48,
+            calls: 0,
             ite_mode: false,
             range_obl: vec![],
             pre: vec![],
@@ -269,6 +272,7 @@ impl Engine {
     /// reset the per-run recorder, keep DAG + trail (new path of same scenario)
     pub fn reset_run(&mut self) {
         self.pos = 0;
+        self.calls = 0;
         self.path.clear();
         self.pathmap.clear();
         self.pre.clear();
@@ -324,6 +328,11 @@ impl Engine {
 pub fn decide(c: Cond) -> bool {
     let abort = with(|e| {
         let id = e.mk_cond(c);
+        e.calls += 1;
+        if e.calls > 200 * e.max_decisions.max(1) {
+            // an (infeasible) cycle that only re-uses earlier outcomes would never end
+            return Err(());
+        }
         if let Some(&v) = e.pathmap.get(&id) {
             return Ok(v);
         }
